@@ -15,12 +15,31 @@ class Unfoldable(Exception):
     pass
 
 
+class FoldRaises(Unfoldable):
+    """the expression was evaluated on constants and the evaluation itself raises (KeyError, IndexError ...): a definite run-time error for that input"""
+
+
 def fold_term(eng, t, env: dict):
     """Constant-fold a SymEval term under an assignment of parameters to Python constants (pure package functions and pure
     methods of constants only)."""
     if is_const(t):
         return t[1]
+    if "__terms__" in env and t in env["__terms__"]:
+        return env["__terms__"][t]  # substitution of whole terms (e.g. self.identity -> a constant)
     k = t[0]
+    if k == "gval":
+        return t[1].v
+    if k == "proj":
+        try:
+            return fold_term(eng, t[1], env)[t[2]]
+        except Unfoldable:
+            raise
+        except Exception as err:
+            raise FoldRaises(f"projection raises {type(err).__name__}") from None
+    if k == "dict":
+        return {fold_term(eng, a, env): fold_term(eng, b, env) for a, b in zip(t[1], t[2])}
+    if k == "list":
+        return [fold_term(eng, x, env) for x in t[1]]
     if k == "param":
         if t[1] in env:
             return env[t[1]]
@@ -33,12 +52,12 @@ def fold_term(eng, t, env: dict):
             if isinstance(r, Unknown):
                 raise Unfoldable(r.why)
             return r
-        if fn[0] == "attr" and fn[2] in ConstEval.PURE_METHODS:
+        if fn[0] == "attr" and fn[2] in ConstEval.PURE_METHODS | {"get"}:
             recv = fold_term(eng, fn[1], env)
             try:
                 return getattr(recv, fn[2])(*args, **kw)
             except Exception as err:
-                raise Unfoldable(f"method raises {type(err).__name__}") from None
+                raise FoldRaises(f"method raises {type(err).__name__}") from None
         if fn[0] == "builtin" and fn[1] in ("str", "int", "len", "tuple", "repr"):
             try:
                 return {"str": str, "int": int, "len": len, "tuple": tuple, "repr": repr}[fn[1]](*args)
@@ -51,14 +70,14 @@ def fold_term(eng, t, env: dict):
         except Unfoldable:
             raise
         except Exception as err:
-            raise Unfoldable(f"index raises {type(err).__name__}") from None
+            raise FoldRaises(f"index raises {type(err).__name__}: {err}") from None
     if k == "slice":
         try:
             return fold_term(eng, t[1], env)[fold_term(eng, t[2], env) : fold_term(eng, t[3], env) : fold_term(eng, t[4], env)]
         except Unfoldable:
             raise
         except Exception as err:
-            raise Unfoldable(f"slice raises {type(err).__name__}") from None
+            raise FoldRaises(f"slice raises {type(err).__name__}") from None
     if k == "tuple":
         return tuple(fold_term(eng, x, env) for x in t[1])
     if k == "bin" and t[1] == "+":
